@@ -20,7 +20,9 @@ def putOld (d : MemDB.DB) (key v : Bytes) : MemDB.DB :=
 /-- the overwrite branch: new bytes appended, offset and value length of the node updated, nothing else touched -/
 theorem putOverwrite_sim (hc : LawfulCmp cmp) (r : Rep cmp a d ix) {key : Bytes} (hk : key ∈ d.level0) (v : Bytes) :
     ∃ a', putOverwrite a (ix key) key v = some a' ∧
-      Rep cmp a' (putOld d key v) ix := by
+      Rep cmp a' (putOld d key v) ix ∧ a'.gen = a.gen ∧ a'.prevNode = a.prevNode ∧
+      a'.kvData = a.kvData ++ key.toArray ++ v.toArray ∧ a'.nodeData.size = a.nodeData.size ∧
+      ∀ x, x ≠ ix key → x ≠ ix key + nVal → a'.nodeData[x]? = a.nodeData[x]? := by
   have e4 := nNext_eq
   have e2 := nVal_eq
   have e1 := nKey_eq
@@ -48,7 +50,13 @@ theorem putOverwrite_sim (hc : LawfulCmp cmp) (r : Rep cmp a d ix) {key : Bytes}
   have hd' := MemDB.put_inv hc r.inv key v (ht := 1) (by omega) (by decide)
   rw [MemDB.put_old hc r.inv hk] at hd'
   change MemDB.Inv cmp (putOld d key v) at hd'
-  refine ⟨_, by simp only [putOverwrite, w1, hm, w2, Option.bind_some, Option.bind_eq_bind]; rfl, ?_⟩
+  refine ⟨{ a with kvData := a.kvData ++ key.toArray ++ v.toArray, nodeData := nd2,
+                   kvSize := a.kvSize + v.length - (d.value key).length },
+    by simp only [putOverwrite, w1, hm, w2, Option.bind_some, Option.bind_eq_bind], ?_, rfl, rfl, rfl,
+    by show nd2.size = _; rw [s2, s1], by
+      intro x h1 h2
+      show nd2[x]? = _
+      rw [hg]; simp [h1, h2]⟩
   refine
     { inv := hd', mh := r.mh, n := r.n, kvSize := ?_, used := ?_, pn := r.pn, fuel := ?_, top := ?_, chain := ?_,
       node := ?_, sep := r.sep }
@@ -118,13 +126,15 @@ theorem putOverwrite_sim (hc : LawfulCmp cmp) (r : Rep cmp a d ix) {key : Bytes}
 
 /-- `Put` of a key that is present -/
 theorem put_old_sim (hc : LawfulCmp cmp) (r : Rep cmp a d ix) {key : Bytes} (hk : key ∈ d.level0) (v : Bytes)
-    (h : Nat) : ∃ a', put cmp a key v h = some a' ∧ Rep cmp a' (MemDB.put cmp d key v h) ix := by
+    (h : Nat) : ∃ a', put cmp a key v h = some a' ∧ Rep cmp a' (MemDB.put cmp d key v h) ix ∧
+      a'.gen = a.gen ∧ a'.kvData = a.kvData ++ key.toArray ++ v.toArray ∧ a'.nodeData.size = a.nodeData.size ∧
+      ∀ x, x ≠ ix key → x ≠ ix key + nVal → a'.nodeData[x]? = a.nodeData[x]? := by
   obtain ⟨pn', h1, hlen, _, _⟩ := findGE_sim r key true
   obtain ⟨he, hn⟩ := findGE_exact hc r key true
   have hex : (MemDB.findGE cmp d key true).exact = true := by rw [he]; simpa using hk
   rw [hex, hn hk] at h1
-  obtain ⟨a', e, r'⟩ := putOverwrite_sim hc (r.setPrev pn' hlen) hk v
-  refine ⟨a', ?_, by rw [MemDB.put_old hc r.inv hk]; exact r'⟩
+  obtain ⟨a', e, r', f1, _, f2, f3, f4⟩ := putOverwrite_sim hc (r.setPrev pn' hlen) hk v
+  refine ⟨a', ?_, by rw [MemDB.put_old hc r.inv hk]; exact r', f1, f2, f3, f4⟩
   simp only [put, h1, Option.bind_some, Option.bind_eq_bind, if_true, nix_some]
   exact e
 
@@ -157,7 +167,7 @@ theorem putInsert_arrays (r : Rep cmp a d ix) (key v : Bytes) {h : Nat} (h1 : 1 
     ∃ nd' pn2, putInsert { a with prevNode := pn1 } key v h =
         some { kvData := a.kvData ++ key.toArray ++ v.toArray, nodeData := nd', prevNode := pn2,
                maxHeight := if h > a.maxHeight then h else a.maxHeight, n := a.n + 1,
-               kvSize := a.kvSize + (key.length + v.length) } ∧
+               kvSize := a.kvSize + (key.length + v.length), gen := a.gen } ∧
       pn2.length = tMaxHeight ∧ Inserted cmp a d ix key v h nd' := by
   have e4 := nNext_eq
   have e2 := nVal_eq
